@@ -13,6 +13,7 @@ import Olla.Model.Url
 import Olla.Spec.C16
 import Olla.Gen.Urls
 import Olla.Spec.State
+import Olla.Gen.Security
 
 namespace Olla.Props.C16
 open Olla.Model.Url
@@ -844,5 +845,10 @@ theorem C16_tie_no_process_wide_state :
     Olla.Spec.State.reachesOnly "common.BuildTargetURL" [] = true ∧
     Olla.Spec.State.reachesOnly "util.ResolveURLPath" [] = true ∧
     Olla.Spec.State.reachesOnly "util.StripPrefix" [] = true := by decide
+
+/-- The glue in front of the handlers: the middleware chain mounted on the proxy routes (rate limit, size limit,
+    request and access logging) hands the request on as it came — every line of every client header, the path
+    and the raw query (a probe through the real chain, regenerated on every run: a tie, not a theorem). -/
+theorem C16_tie_middleware_leaves_request_alone : Olla.Gen.Security.chainRequestChanges = [] := by decide
 
 end Olla.Props.C16
